@@ -31,6 +31,10 @@ type verifNode struct {
 	// tagged: an explicit YAML tag written in front of the node (`contents: !!seq {a.fga: b.fga}`): yaml.v3 reports
 	// the written tag while the node keeps the kind of what follows the tag
 	tagged string
+	// props: node properties written in front of the value on the same line (an anchor `&a `, or the tag the value
+	// has anyway `!!str `): yaml.v3 reports the line and column of the first property, not of the value, so the value
+	// stands len(props) columns to the right of what (line, col) say
+	props string
 }
 
 var verifYAMLSchema, verifYAMLContents *verifNode
@@ -137,6 +141,11 @@ func verifQuoteYAML(s string) string {
 }
 
 func verifRenderScalar(n *verifNode) string {
+	if n.props != "" {
+		u := *n
+		u.props = ""
+		return n.props + verifRenderScalar(&u)
+	}
 	if n.tagged != "" {
 		u := *n
 		u.tagged = ""
@@ -418,7 +427,11 @@ func verifC15Check(schema, contents *verifNode, fail bool) {
 		zzverif.Assert(zzverif.Not(verifHasByte(p.Value, '\\')), "no-backslash")
 		zzverif.Assert(verifEndsWithFga(p.Value), "fga-suffix")
 		zzverif.Assert(zzverif.Implies(verifNoSpecial(it.value), p.Value == it.value), "verbatim")
-		zzverif.Assert(zzverif.And(p.Line == it.line-1, p.Column == it.col-1), "item-position")
+		zzverif.Class("item-position", "")
+		if it.props != "" {
+			zzverif.Class("item-position", "value behind an anchor or an explicit tag")
+		}
+		zzverif.Assert(zzverif.And(p.Line == it.line-1, p.Column == it.col+len(it.props)-1), "item-position")
 		if verifNoSpecial(it.value) {
 			// completeness: the independent oracle agrees that it is acceptable
 			zzverif.Assert(zzverif.Not(zzverif.Or(zzverif.Or(verifStartsWithSlash(it.value), verifHasDotDotSlash(it.value)), zzverif.Not(verifEndsWithFga(it.value)))), "accepted-only-if-oracle-accepts")
@@ -484,7 +497,7 @@ func VerifC15_Manifest() {
 		for i := 0; i < cnt; i++ {
 			tag := fmt.Sprintf("item%d", i)
 			n := &verifNode{kind: 1, line: zzverif.Int(tag+".line", 1, 100000), col: zzverif.Int(tag+".col", 1, 100000)}
-			c := zzverif.Choose(tag+".menu", len(verifC15Menu)+3)
+			c := zzverif.Choose(tag+".menu", len(verifC15Menu)+3+zzverif.Param("PROPS", 0))
 			switch {
 			case c < len(verifC15Menu):
 				n.value = verifC15Menu[c]
@@ -492,9 +505,13 @@ func VerifC15_Manifest() {
 				n.kind, n.value = 2, "x"
 			case c == len(verifC15Menu)+1:
 				n.kind, n.value = 3, "x"
-			default:
+			case c == len(verifC15Menu)+2:
 				// a mapping with the string tag written in front
 				n.kind, n.value, n.tagged = 3, "x", "!!str"
+			default:
+				// a good path behind an anchor or behind the tag it has anyway
+				n.value = "a.fga"
+				n.props = []string{"&a ", "!!str "}[zzverif.Choose(tag+".props", 2)]
 			}
 			contents.items = append(contents.items, n)
 		}
